@@ -8,6 +8,59 @@ COMMON = ["the harness module replaces github.com/openconfig/gnmi with /repo's w
           "rapid v1.3.0 generators; every random choice is a function of VERIF_SEED"]
 
 CHECKS = {
+    "C02": dict(
+        engine="cacheprop",
+        technique="model-based property testing (rapid): notification histories with adversarial timestamps vs a per-leaf timestamp model",
+        level_text=("Thousands of generated histories (updates, multi-entry, atomic, exact/subtree/glob deletes, both path encodings, keyed paths, "
+                    "timestamps drawn relative to the addressed leaf / latest accepted / clock at -3..+3*threshold, stubbed cache.Now, "
+                    "future threshold on/off, emulation on/off) are run against the real cache on one goroutine; after every step the returned "
+                    "error class and the full Query(*) content (path, timestamp, value) must equal a reference model. Bounded exploration."),
+        level_note=("trusts the reference model (decide/interpret in cacheprop/run.go) and gn.RefIndex/gn.Matches; the two decisions the property leaves open "
+                    "(same timestamp + same value in another encoding; whether a multi-update notification's own timestamp already counts as latest) accept either outcome; "
+                    "one path encoding per notification; timestamps > 0; no metadata paths from the target (C12)"),
+        rule=("cases are histories of 1-60 steps over 1-2 targets; non-trivial = the history contains an update at or below the stored timestamp of an existing leaf "
+              "AND a delete that removed at least one leaf; distinct = distinct hash of the scenario"),
+        assumptions=COMMON + ["cache.Now is stubbed with a scenario-controlled clock", "single goroutine: every step is a quiescent point"],
+        parts=[dict(name="random", run="TestC02Random", checks=dict(quick=6000, thorough=30000), shards=dict(quick=1, thorough=16))],
+    ),
+    "C03": dict(
+        engine="cacheprop",
+        technique="property testing (rapid): replay of the change feed vs Query, feed prediction by a model, multi-vs-singles differential, aliasing probes",
+        level_text=("Same engine as C02 plus Reset/Remove/Add/Sync/Connect/ConnectError/UpdateMetadata and shared prefix objects with spare capacity. "
+                    "After every step the replayed feed must equal Query(*) for every target (metadata leaves included); per call the feed entries must be exactly those the model "
+                    "predicts, in order (suppression allowed only for an unchanged value with emulation on); each history is re-run with multi-entry notifications split into singles "
+                    "and must end in the same content and replayed feed; the submitted notification and the spare capacity of shared prefixes must be untouched. Bounded exploration."),
+        level_note="trusts the replay function (update sets, atomic replaces its container, delete removes what it matches) and the model; multi-vs-singles only with threshold off",
+        rule=("cases are histories of 1-60 steps over 1-3 targets; non-trivial = a delete that produced >=2 feed entries for leaves stored through one shared prefix object, "
+              "or a multi-entry notification mixing accepted and rejected updates; distinct = distinct hash of the scenario"),
+        assumptions=COMMON + ["cache.Now is stubbed with a scenario-controlled clock", "single goroutine: every step is a quiescent point"],
+        parts=[dict(name="random", run="TestC03Random", checks=dict(quick=5000, thorough=25000), shards=dict(quick=1, thorough=16))],
+    ),
+    "C14": dict(
+        engine="cacheprop",
+        technique="model-based property testing (rapid): multi-target histories with Reset/Add/Remove; before/after snapshots of every other target",
+        level_text=("Histories over 2-4 targets on a deliberately small path universe (so targets hold leaves at the same paths). Around every operation addressed to one target the "
+                    "stored content (deterministic marshalling of every leaf) and every exported metadata value of all other targets are snapshotted and must be identical afterwards; "
+                    "after Reset the target has no data leaf, its metadata is back to initial values and the feed replay is empty for it; after Remove it is unknown to HasTarget/Query/GnmiUpdate "
+                    "and a whole-target delete was fed. Cache part of C14; subscriber part in subprop. Bounded exploration."),
+        level_note="UpdateMetadata/UpdateSize act on all targets and are not isolation-checked; latestTimestamp after Reset only required to be <= 0 (the zero time exports as a negative number)",
+        rule=("cases are histories of 1-60 steps over 2-4 targets; non-trivial = a Reset or Remove of a target holding >=2 top-level subtrees while another target holds a leaf at one of the same paths; "
+              "distinct = distinct hash of the scenario"),
+        assumptions=COMMON + ["cache.Now is stubbed with a scenario-controlled clock"],
+        parts=[dict(name="random", run="TestC14Random", checks=dict(quick=5000, thorough=25000), shards=dict(quick=1, thorough=16))],
+    ),
+    "C15": dict(
+        engine="cacheprop",
+        technique="property testing (rapid): conservation laws of exported counters vs the real tree and vs per-call outcomes predicted by a model",
+        level_text=("Histories with lifecycle calls and refreshes; after every step targetLeaves == number of non-metadata leaves stored == added - deleted; per submitted notification the deltas of "
+                    "updated/suppressed/stale/future/empty equal the outcomes predicted by the model (accepted and fed, accepted and withheld, stale, future; each delete path counts as one update; "
+                    "atomic accepted counts its contained updates); after UpdateMetadata latestTimestamp == greatest accepted target timestamp. Counter part of C15; latency and race parts are separate parts of this check. Bounded exploration."),
+        level_note="a rejected atomic notification is only required to bump its reject counter at least once; lifecycle-generated metadata updates are not judged per call",
+        rule=("cases are histories of 1-60 steps over 1-2 targets; non-trivial = the history contains an accepted, a suppressed and a stale update, a delete that removed a leaf, "
+              "and a ConnectError followed by Connect on the same target; distinct = distinct hash of the scenario"),
+        assumptions=COMMON + ["cache.Now is stubbed with a scenario-controlled clock"],
+        parts=[dict(name="random", run="TestC15Random", checks=dict(quick=5000, thorough=25000), shards=dict(quick=1, thorough=16))],
+    ),
     "C09": dict(
         engine="ctreeprop",
         technique="model-based property testing (rapid) + exhaustive small-scope enumeration against a prefix-free map model",
